@@ -7,3 +7,5 @@ import TradingVerif.Props.C10
 #print axioms TV.isolation
 #print axioms TV.partitions_immutable
 #print axioms TV.isolation_chain_counterexample
+#print axioms TV.replay_after_any_lifetime
+#print axioms TV.replay_after_any_lifetime_perturbed
